@@ -47,3 +47,30 @@ def witnesses():
         "C01-ordered-delimiter-merge": _differs("1. a\n\n1) b\n", width=88, semantic=False),
         "C01-closing-tag-unindented": _differs("- {% f %}\n  - i1\n  {% /f %}\n", width=88, semantic=False),
     }
+
+
+def static_obligations(tier):
+    """ST frame obligations that the contracts on render_paragraph / render_heading assume of the inline render methods:
+    rendering inline children assigns no renderer field other than the escape context `_current_inline_text`
+    (so the container prefixes and the block-level flags in force are those the block method set)."""
+    import ast
+    from vfcore import static
+    tree = static.package_modules(include=("flowmark.formats.flowmark_markdown",))["flowmark.formats.flowmark_markdown"]
+    cls = next(n for n in ast.walk(tree) if isinstance(n, ast.ClassDef) and n.name == "MarkdownNormalizer")
+    recs = []
+    for m in cls.body:
+        if not isinstance(m, ast.FunctionDef) or not m.name.startswith("render_") or len(m.args.args) < 2:
+            continue
+        ann = ast.unparse(m.args.args[1].annotation) if m.args.args[1].annotation is not None else ""
+        if not (ann.startswith("inline.") or ann in ("footnote.FootnoteRef", "gfm_elements.Strikethrough", "gfm_elements.Url")):
+            continue
+        stores = sorted({x.attr for x in ast.walk(m) if isinstance(x, ast.Attribute) and isinstance(x.ctx, (ast.Store, ast.Del))
+                         and isinstance(x.value, ast.Name) and x.value.id == "self"})
+        calls_block = sorted({ast.unparse(c.func) for c in ast.walk(m) if isinstance(c, ast.Call) and isinstance(c.func, ast.Attribute)
+                              and isinstance(c.func.value, ast.Name) and c.func.value.id == "self"
+                              and c.func.attr not in ("render_children", "render")})
+        recs.append({"oid": "frame/formats.flowmark_markdown:MarkdownNormalizer.%s/inline_renderers_frame" % m.name,
+                     "status": "discharged" if set(stores) <= {"_current_inline_text"} else "refuted",
+                     "src": "an inline render method assigns no renderer field other than _current_inline_text",
+                     "detail": "assigns %s; calls %s" % (stores, calls_block)})
+    return recs
